@@ -32,6 +32,10 @@ THEOREMS = (["Pedal.Assertions.c07_" + n for n in PROVED] + [
     "Pedal.Assertions.c07_string_normalisation_symmetric",
     "Pedal.Assertions.c07_normalisation_ignores_case",
     "Pedal.Assertions.c07_equality_symmetric",
+    "Pedal.Assertions.c07_equality_evaluable",
+    "Pedal.Assertions.c07_equal_negation_exclusive_partial",
+    "Pedal.Assertions.c07_equal_negation_exclusive_seq",
+    "Pedal.Assertions.c07_equal_negation_exclusive_counterexample",
     "Pedal.Assertions.c07_unit_test_all_and_count",
 ])
 NOTES = [
@@ -53,7 +57,14 @@ NOTES = [
     "assert_has_attr / assert_has_variable / assert_has_function are outside the property's list",
     "the value loop of equality_test's dict branch iterates a set: when a False and a raising comparison are both "
     "present the model answers 'unmodelled'",
+    "dict KEYS under assert_equal: neither the documentation nor the property says whether tolerance/normalisation "
+    "extend to keys; for two dicts whose key sets are equal only approximately the oracle abstains and only demands "
+    "that assert_equal and assert_not_equal do not both pass or both fail (the code matches the key sets "
+    "approximately and then looks keys up exactly -> KeyError: open finding, refuted full statement)",
 ]
+REFUTED = [{"statement": "Pedal.Assertions.C07_equal_negation_exclusive_Full",
+            "refuted_by": "Pedal.Assertions.c07_equal_negation_exclusive_counterexample",
+            "findings": ["assert_equal / assert_not_equal both fail for dicts whose key sets are equal only approximately"]}]
 
 WRAPS = ("rr", "pr", "rp", "pp")
 DELTAS = [None, 0.5, 0.125]
@@ -279,6 +290,20 @@ def from_description(d):
     return name, a, b, kw, {}
 
 
+def want_of(name, a, b, kw, okw):
+    """what the property demands: 'silent' | 'fires' | 'either' (the oracle abstains, see ac.o_equal)"""
+    o = ac.oracle(name, a, b, **kw, **okw)
+    return "either" if o is None else ("silent" if o else "fires")
+
+
+COUNTERPART = dict(list(ac.NEGATION_PAIRS) + [(y, x) for x, y in ac.NEGATION_PAIRS])
+
+
+def pair_outcomes(name, a, b, kw):
+    """real outcomes of (name, its negated counterpart) on the very same operands"""
+    return ac.run_real(name, a, b, **kw), ac.run_real(COUNTERPART[name], a, b, **kw)
+
+
 def sig_of(name, real, want, a, b, wrap):
     if real.startswith("escapes"):
         kind = "escapes"
@@ -342,10 +367,14 @@ def run_unit(case, P):
 
 
 def oracle_unit(case, P):
+    """None when the oracle abstains on one of the rows (ac.Ambiguous)"""
     good = 0
-    for _, s, e in case["rows"]:
-        if s is not None and ac.o_equal(P.raw[s], P.raw[e], False, ac.DEFAULT_DELTA):
-            good += 1
+    try:
+        for _, s, e in case["rows"]:
+            if s is not None and ac.o_equal(P.raw[s], P.raw[e], False, ac.DEFAULT_DELTA):
+                good += 1
+    except ac.Ambiguous:
+        return None
     return {"passed": good == len(case["rows"]), "succ": good, "total": len(case["rows"]),
             "reported": good != len(case["rows"])}
 
@@ -617,7 +646,7 @@ def correspond(rng, tier, driver):
                                     json.dumps(case["desc"], sort_keys=True) if "desc" in case else None))
             if model != real:
                 res.disagreements.append({"case": describe(case, P), "real": real, "model": model, "request": line})
-            elif spec in ("silent", "fires") and spec != want:
+            elif spec in ("silent", "fires") and want != "either" and spec != want:
                 res.disagreements.append({"case": describe(case, P), "real": real, "model": "lean spec says " + spec,
                                           "oracle": want, "request": line, "kind": "spec-vs-oracle"})
         del lines[:]
@@ -626,7 +655,7 @@ def correspond(rng, tier, driver):
     for case in all_cases(rng, tier, P):
         name, a, b, kw, okw = materialise(case, P)
         real = ac.run_real(name, a, b, **kw)
-        want = "silent" if ac.oracle(name, a, b, **kw, **okw) else "fires"
+        want = want_of(name, a, b, kw, okw)
         results.append((case, real, want))
         res.count("assertion:" + name)
         line = ag.request_line(name, a, b, **kw, **okw)
@@ -684,13 +713,34 @@ def search(rng, tier, broken, corr):
         for case in all_cases(rng, tier, P):
             name, a, b, kw, okw = materialise(case, P)
             real = ac.run_real(name, a, b, **kw)
-            want = "silent" if ac.oracle(name, a, b, **kw, **okw) else "fires"
+            want = want_of(name, a, b, kw, okw)
             results.append((case, real, want))
     nt = set()
     for case, real, want in results:
         info["evaluations"] += 1
         if want == "silent":
             nt.add(json.dumps(case, sort_keys=True))
+        if want == "either":
+            # the property leaves the answer open (dicts whose keys are equal only approximately); what it does
+            # demand is that the assertion and its negated counterpart neither both pass nor both fail
+            info["oracle_abstained"] = info.get("oracle_abstained", 0) + 1
+            name, a, b, kw, okw = materialise(case, P)
+            pair = pair_outcomes(name, a, b, kw)
+            if sorted(pair) != ["fires", "silent"]:
+                pos = (name if "not" not in name else COUNTERPART[name]).replace("almost_", "")   # the alias class
+                kind = ("both-fail" if pair == ("fires", "fires") else
+                        "both-pass" if pair == ("silent", "silent") else "escapes")
+                sig = {"assertion": pos, "kind": kind + "-with-negation",
+                       "operands": "dicts whose key sets are equal only approximately"}
+                d = describe(case, P)
+                key = json.dumps(sig, sort_keys=True)
+                size = len(json.dumps(d))
+                if key not in best or size < best[key][0]:
+                    what = "%s(%s, %s) [%s] is %s and %s is %s: they must not both pass or both fail" % (
+                        name, _short(a), _short(b), case["wrap"], pair[0], COUNTERPART[name], pair[1])
+                    best[key] = (size, Failure(sig, what, {"case": d, "real": list(pair),
+                                                           "expected": "exactly one of the two silent"}))
+            continue
         if real != want:
             name, a, b, kw, okw = materialise(case, P)
             sig = sig_of(name, real, want, a, b, case["wrap"])
@@ -709,6 +759,9 @@ def search(rng, tier, broken, corr):
     for case, real in units:
         info["evaluations"] += 1
         want = oracle_unit(case, P)
+        if want is None:
+            info["unit_oracle_abstained"] = info.get("unit_oracle_abstained", 0) + 1
+            continue
         if real != want:
             sig = {"unit_test": "escapes" if "error" in real else
                    ("verdict" if real.get("passed") != want["passed"] else
@@ -751,9 +804,19 @@ def replay(payload):
     if "case" in rp:
         name, a, b, kw, okw = from_description(rp["case"])
         real = ac.run_real(name, a, b, **kw)
-        want = "silent" if ac.oracle(name, a, b, **kw, **okw) else "fires"
+        want = want_of(name, a, b, kw, okw)
         print("case     :", json.dumps(rp["case"]))
         print("real     :", real)
+        if want == "either":
+            pair = pair_outcomes(name, a, b, kw)
+            print("property : the oracle abstains on these operands; %s and %s must not both pass or both fail" % (
+                name, COUNTERPART[name]))
+            print("pair     :", pair)
+            line = ag.request_line(name, a, b, **kw, **okw)
+            drv = Driver("driver_c07")
+            if line and drv.available:
+                print("model    :", drv.ask([line])[0])
+            return 0 if sorted(pair) == ["fires", "silent"] else 1
         print("property :", want, "(the relation %s)" % ("holds" if want == "silent" else "does not hold"))
         line = ag.request_line(name, a, b, **kw, **okw)
         drv = Driver("driver_c07")
@@ -784,4 +847,4 @@ def replay(payload):
 if __name__ == "__main__":
     sys.exit(run_check("C07", proof_modules=["PedalProofs.C07"], theorems=THEOREMS, driver_exe="driver_c07",
                        translate=translate, correspond=correspond, search=search, replay=replay,
-                       model_notes=NOTES, leanchecker_modules=["PedalProofs.C07"]))
+                       model_notes=NOTES, refuted_full=REFUTED, leanchecker_modules=["PedalProofs.C07"]))
